@@ -182,10 +182,13 @@ func lifeScenario(kind, what string, rng *rand.Rand) {
 		s.fault.Store("")
 		doClose(1)
 	}
-	doClose(2) // idempotent
+	// the census comes before the second Close: a connection that slipped past the first one (a dial that
+	// completed late) must not be tidied away by the idempotence test
 	one(500*time.Millisecond, "after")
 	time.Sleep(400 * time.Millisecond)
 	tr.Emit("census", "sc", sc, "fds", socketFDs(), "basefds", base, "srvconns", s.openConns())
+	doClose(2) // idempotent
+	one(300*time.Millisecond, "after")
 }
 
 func modeLife(thorough bool) {
